@@ -5,9 +5,15 @@
 (*   ShortWriteIgnored = TRUE : the original loop -- the return value of socket.send is ignored,         *)
 (*                              whatever was not accepted is dropped and success is reported             *)
 (*   ShortWriteIgnored = FALSE: the loop continues with the remaining bytes                              *)
+(* After the last send the local side may close the connection (disable / disconnect) while bytes are    *)
+(* still in flight:                                                                                     *)
+(*   AbortiveClose = FALSE: close() is graceful (FIN after the queued data), as the code does it          *)
+(*   AbortiveClose = TRUE : close() resets the connection (e.g. SO_LINGER on, 0 s): the part of the bytes   *)
+(*                          in flight that had not reached the peer's kernel is discarded -- a second      *)
+(*                          regression witness                                                          *)
 EXTENDS Naturals, Sequences, FiniteSets, TLC
 
-CONSTANTS ShortWriteIgnored, K, SZ         \* K: kernel buffer capacity; SZ selects the sequence of message sizes
+CONSTANTS ShortWriteIgnored, AbortiveClose, K, SZ         \* K: kernel buffer capacity; SZ selects the sequence of message sizes
 Sizes == CASE SZ = 1 -> <<1, 4, 5>> [] SZ = 2 -> <<3, 3>> [] SZ = 3 -> <<7, 1, 2>> [] OTHER -> <<2>>
 
 VARIABLES m,        \* message being sent (Len(Sizes)+1 = done)
@@ -15,11 +21,12 @@ VARIABLES m,        \* message being sent (Len(Sizes)+1 = done)
           kb,       \* kernel buffer: sequence of <<message, index>> in flight
           rcv,      \* what the peer has read
           res,      \* res[i] \in {"-", "ok", "fail"}
-          broken    \* connection reset by peer
-vars == <<m, off, kb, rcv, res, broken>>
+          broken,   \* connection reset by peer
+          closed    \* closed locally after the last send
+vars == <<m, off, kb, rcv, res, broken, closed>>
 NM == Len(Sizes)
 
-Init == m = 1 /\ off = 0 /\ kb = <<>> /\ rcv = <<>> /\ res = [i \in 1..NM |-> "-"] /\ broken = FALSE
+Init == m = 1 /\ off = 0 /\ kb = <<>> /\ rcv = <<>> /\ res = [i \in 1..NM |-> "-"] /\ broken = FALSE /\ closed = FALSE
 
 Bytes(i, a, b) == [j \in 1..(b - a + 1) |-> <<i, a + j - 1>>]
 
@@ -30,18 +37,25 @@ Send(n) == /\ m <= NM /\ ~broken
            /\ IF ShortWriteIgnored \/ off + n = Sizes[m]
                 THEN /\ res' = [res EXCEPT ![m] = "ok"] /\ m' = m + 1 /\ off' = 0      \* send_data returns True
                 ELSE /\ off' = off + n /\ UNCHANGED <<m, res>>
-           /\ UNCHANGED <<rcv, broken>>
+           /\ UNCHANGED <<rcv, broken, closed>>
 SendFails == /\ m <= NM /\ broken
              /\ res' = [res EXCEPT ![m] = "fail"] /\ m' = m + 1 /\ off' = 0
-             /\ UNCHANGED <<kb, rcv, broken>>
+             /\ UNCHANGED <<kb, rcv, broken, closed>>
 Drain(n) == /\ n >= 1 /\ n <= Len(kb)
             /\ rcv' = rcv \o SubSeq(kb, 1, n) /\ kb' = SubSeq(kb, n + 1, Len(kb))
-            /\ UNCHANGED <<m, off, res, broken>>
-Reset == /\ ~broken /\ broken' = TRUE /\ kb' = <<>> /\ UNCHANGED <<m, off, rcv, res>>
+            /\ UNCHANGED <<m, off, res, broken, closed>>
+Reset == /\ ~broken /\ ~closed /\ broken' = TRUE /\ kb' = <<>> /\ UNCHANGED <<m, off, rcv, res, closed>>
+(* the application closes the connection after its last send returned; n bytes in flight had reached the  *)
+(* peer's kernel, the others are still queued locally                                                    *)
+Close(n) == /\ m = NM + 1 /\ ~closed /\ ~broken /\ n <= Len(kb)
+            /\ closed' = TRUE
+            /\ kb' = IF AbortiveClose THEN SubSeq(kb, 1, n) ELSE kb
+            /\ UNCHANGED <<m, off, rcv, res, broken>>
 
 DoSend == \E n \in 1..K : Send(n)
 DoDrain == \E n \in 1..K : Drain(n)
-Next == DoSend \/ SendFails \/ DoDrain \/ Reset
+DoClose == \E n \in 0..K : Close(n)
+Next == DoSend \/ SendFails \/ DoDrain \/ Reset \/ DoClose
 Spec == Init /\ [][Next]_vars /\ WF_vars(DoSend) /\ WF_vars(DoDrain) /\ WF_vars(SendFails)
 
 Stream == rcv \o kb                         \* everything the kernel accepted, in order
